@@ -311,6 +311,10 @@ def simulation(draw, M, k, nsim):
         F.add(kd)
     # ---- action ----------------------------------------------------------------------------------------------
     avail = {kd: set(M.ent[kd]) | set(defined_here[kd]) for kd in M.ent}
+    # a simulation with a MIX in use never holds an initial exchange/surface/gas calculation and is never generated while
+    # INCREMENTAL_REACTIONS is true: if such a step fails to converge the engine dereferences a null mix pointer
+    # (Phreeqc::Use2cxxStorageBin) instead of reporting the error - a crash outside this property's domain
+    initial_calc = any("-equilibrate" in t for t in P)
     act = draw(st.sampled_from(["batch", "batch", "batch", "none", "mix", "copy", "cells", "advect", "delete"])) if avail["solution"] else "none"
     saves = []
     deletes = []
@@ -333,15 +337,15 @@ def simulation(draw, M, k, nsim):
                 F.add(kd)
                 if n not in defined_here[kd]:
                     F.add("use_reactant_of_earlier_simulation")
-        if avail["mix"] and _bool(draw, 1, 4) and M.incr:
-            F.add("excluded_mix_while_incremental_reactions")
+        if avail["mix"] and _bool(draw, 1, 4) and (M.incr or initial_calc):
+            F.add("excluded_mix_with_incremental_or_equilibrate")
         elif avail["mix"] and _bool(draw, 1, 4):
             n = draw(st.sampled_from(sorted(avail["mix"])))
             P.append("USE mix %d" % n)
             use["mix"] = n
             F.add("use_mix_of_earlier_simulation")
-    elif act == "mix" and M.incr:
-        F.add("excluded_mix_while_incremental_reactions")
+    elif act == "mix" and (M.incr or initial_calc):
+        F.add("excluded_mix_with_incremental_or_equilibrate")
     elif act == "mix":
         m = draw(st.sampled_from(NUMS))
         parts = draw(st.lists(st.sampled_from(sorted(avail["solution"])), min_size=1, max_size=3, unique=True))
@@ -367,7 +371,7 @@ def simulation(draw, M, k, nsim):
     elif act == "cells":
         cells = draw(st.lists(st.sampled_from(sorted(avail["solution"])), min_size=1, max_size=3, unique=True))
         if M.incr and any(c in avail["mix"] for c in cells):
-            F.add("excluded_mix_while_incremental_reactions")
+            F.add("excluded_mix_with_incremental_or_equilibrate")
             cells = [c for c in cells if c not in avail["mix"]]
     if act == "cells" and cells:
         P.append("RUN_CELLS\n -cells %s\n -time_step %s" % (" ".join(str(c) for c in cells), fmt(draw(cg.logu(1.0, 1e4, 2)))))
